@@ -358,6 +358,98 @@ def body_history(case, ctx):
     ctx.event("kernel=" + ("CP" if rk.has(spec, "CP") else spec["k"]))
 
 
+# ------------------------------------------------------------------ the same numbers in other array forms
+INT_FORMS = ["int64", "int32", "float32", "fortran", "strided"]
+
+
+def as_form(a, form):
+    a = np.array(a, dtype=float)
+    if form in ("int64", "int32", "float32"):
+        return a.astype(form)
+    if form == "fortran":
+        return np.asfortranarray(a)
+    if form == "strided":
+        big = np.zeros((2 * a.shape[0],) + a.shape[1:])
+        big[::2] = a
+        return big[::2]
+    return a.copy()
+
+
+@st.composite
+def form_cases(draw):
+    d = draw(st.integers(1, 3))
+    n = draw(st.integers(3, 7))
+    pts = draw(st.lists(st.tuples(*[st.integers(-6, 6)] * d), min_size=n, max_size=n, unique=True))
+    return {"seed": draw(st.integers(0, 2**31)), "d": d, "n": n, "x": [list(p) for p in pts],
+            "y": [draw(st.integers(-9, 9)) for _ in range(n)], "err": [draw(st.integers(1, 3)) for _ in range(n)],
+            "noise": draw(st.sampled_from(["none", "y_err", "y_cov"])),
+            "q": [[draw(st.integers(-7, 7)) for _ in range(d)] for _ in range(draw(st.integers(1, 4)))],
+            "kernel": draw(st.sampled_from([{"k": "SE"}, {"k": "RQ"}, {"k": "Sum", "parts": [{"k": "SE"}, {"k": "White"}]}])),
+            "mean": draw(st.sampled_from(["Constant", "Linear", "Quadratic"])),
+            "theta": [draw(st.floats(-1.5, 1.5)) for _ in range(12)],
+            "forms": {k: draw(st.sampled_from(INT_FORMS + ["float64"])) for k in ("x", "y", "err", "q")},
+            "x_list": draw(st.booleans())}
+
+
+def body_forms(case, ctx):
+    """whole-number data are the same data whether held as float64, integer, single-precision, Fortran-ordered or strided arrays
+    (and x as a list of rows): the regressor built from either gives the same predictions"""
+    d, n = case["d"], case["n"]
+    spec = case["kernel"]
+    X, y, err, Q = (np.array(case[k], dtype=float) for k in ("x", "y", "err", "q"))
+    X, Q = X.reshape(n, d), Q.reshape(-1, d)
+    if np.ptp(y) == 0:
+        raise Inconclusive("constant data")
+    n_theta = rk.mean_n_params(case["mean"], d) + rk.n_params(spec, n, d)
+    theta = np.array(case["theta"][:n_theta], dtype=float)
+
+    def build(fx, fy, fe, xl):
+        kw = {}
+        if case["noise"] == "y_err":
+            kw["y_err"] = as_form(err, fe)
+        elif case["noise"] == "y_cov":
+            kw["y_cov"] = as_form(np.diag(err**2), fe)
+        xin = as_form(X, fx)
+        if xl:
+            xin = [row for row in xin]
+        with warnings.catch_warnings(), np.errstate(all="ignore"):
+            warnings.simplefilter("ignore")
+            return GpRegressor(xin, as_form(y, fy), hyperpars=theta.copy(), kernel=rk.build_kernel(spec), mean=rk.build_mean(case["mean"]), **kw)
+
+    f = case["forms"]
+    try:
+        ref = build("float64", "float64", "float64", False)
+        gp = build(f["x"], f["y"], f["err"], case["x_list"])
+    except np.linalg.LinAlgError:
+        raise Inconclusive("Cholesky failed")
+    with np.errstate(all="ignore"):
+        mu0, cov0 = ref.build_posterior(Q.copy())
+        s0 = ref(Q.copy())[1]
+        mu1, cov1 = gp.build_posterior(as_form(Q, f["q"]))
+        s1 = gp(as_form(Q, f["q"]))[1]
+    mu0, cov0, s0, mu1, cov1, s1 = (np.asarray(a, dtype=float) for a in (mu0, cov0, s0, mu1, cov1, s1))
+    if not np.all(np.isfinite(mu0)):
+        raise Inconclusive("reference not finite")
+    kappa = np.linalg.cond(ref.K_xx)
+    tol = (1e-9 + 100 * kappa * EPS)
+    # single precision holds these whole numbers exactly, but arithmetic that stays in float32 is coarser: allow its epsilon there
+    if "float32" in f.values():
+        tol = max(tol, 1e-5 * max(kappa, 1.0))
+    sc_mu = np.max(np.abs(mu0)) + np.max(np.abs(y)) + 1.0
+    sc_c = np.max(np.abs(cov0)) + 1e-300
+    what = ", ".join(f"{k}={v}" for k, v in f.items()) + (", x as list of rows" if case["x_list"] else "")
+    if mu1.shape != mu0.shape or cov1.shape != cov0.shape or s1.shape != s0.shape:
+        raise Violation("forms-shape", f"[{what}] shapes {mu1.shape}/{cov1.shape}/{s1.shape} vs {mu0.shape}/{cov0.shape}/{s0.shape} from float64 arrays")
+    e = max(float(np.max(np.abs(mu1 - mu0))) / (tol * sc_mu), float(np.max(np.abs(cov1 - cov0))) / (tol * sc_c), float(np.max(np.abs(s1**2 - s0**2))) / (tol * sc_c))
+    ctx.ratio("forms", e, 1.0)
+    if not e <= 1:
+        raise Violation("forms:" + "+".join(sorted({v for v in f.values() if v != "float64"}) or ["list"]), f"{rk.describe(spec)}, {case['mean']} mean, noise {case['noise']}: predictions from [{what}] differ from those "
+                        f"from float64 arrays of the same numbers: mean {mu1.tolist()} vs {mu0.tolist()}, variances {np.diag(cov1).tolist()} vs {np.diag(cov0).tolist()}")
+    ctx.nontrivial(any(v in ("int64", "int32") for v in f.values()))
+    for k, v in f.items():
+        ctx.event(f"{k}:{v}")
+
+
 SUBCHECKS = [
     Sub("posterior", lambda t: gc.gp_problems(max_n=25 if t == "thorough" else 16, min_n=2), body_posterior, quick=1400, thorough=50000,
         shards_quick=10, shards_thorough=16,
@@ -367,4 +459,6 @@ SUBCHECKS = [
         rule="n >= 3 and (composite / change-point kernel or non-constant mean or d >= 2 or full y_cov), kappa <= 1e10"),
     Sub("history", lambda t: history_cases(), body_history, quick=700, thorough=25000, shards_quick=7, shards_thorough=16,
         rule="one regressor whose hyper-parameters are switched, or whose caller re-uses one query array for different points, between predictions"),
+    Sub("forms", lambda t: form_cases(), body_forms, quick=600, thorough=20000, shards_quick=6, shards_thorough=16,
+        rule="some of x, y, errors, queries held in an integer array"),
 ]
